@@ -3,6 +3,7 @@
 package dragonboat
 
 import (
+	"math/rand"
 	"runtime"
 	"sync"
 	"sync/atomic"
@@ -14,6 +15,7 @@ import (
 	"github.com/lni/dragonboat/v4/internal/logdb"
 	"github.com/lni/dragonboat/v4/internal/raft"
 	"github.com/lni/dragonboat/v4/internal/rsm"
+	"github.com/lni/dragonboat/v4/internal/server"
 	pb "github.com/lni/dragonboat/v4/raftpb"
 	sm "github.com/lni/dragonboat/v4/statemachine"
 )
@@ -30,18 +32,19 @@ import (
 // replica of a three member shard that never hears from the other two) and a
 // quiesce state, so that the real node.tick can be driven.
 type VerifC12 struct {
-	Pool  *sync.Pool
-	n     *node
-	pq    *entryQueue
-	rq    *readIndexQueue
-	pp    *pendingProposal
-	pr    *pendingReadIndex
-	pc    *pendingConfigChange
-	psn   *pendingSnapshot
-	pl    *pendingRaftLogQuery
-	ccC   chan configChangeRequest
-	ssC   chan rsm.SSRequest
-	taken []*RequestState
+	Pool    *sync.Pool
+	n       *node
+	pq      *entryQueue
+	rq      *readIndexQueue
+	pp      *pendingProposal
+	pr      *pendingReadIndex
+	pc      *pendingConfigChange
+	psn     *pendingSnapshot
+	pl      *pendingRaftLogQuery
+	ccC     chan configChangeRequest
+	ssC     chan rsm.SSRequest
+	taken   []*RequestState
+	nextKey uint64
 }
 
 // NewVerifC12 builds the tables with ps proposal shards and the given queue sizes.
@@ -90,6 +93,19 @@ func NewVerifC12(ps uint64, notifyCommit bool, pqSize uint64, rqSize uint64) *Ve
 		},
 	}
 	pendingProposalShards = old
+	// what node.close(), node.propose() ... and node.notifyCommittedEntries() touch besides the tables
+	n.stopC = make(chan struct{})
+	n.initializedC = make(chan struct{})
+	n.setInitialized()
+	n.pipeline = verifC12Pipeline{}
+	n.toCommitQ = rsm.NewTaskQueue()
+	n.toApplyQ = rsm.NewTaskQueue()
+	n.mq = server.NewMessageQueue(16, false, 0, 0)
+	n.validateTarget = func(string) bool { return true }
+	// proposal keys: the harness chooses them (pendingProposal.nextKey draws from these generators)
+	for i := range n.pendingProposals.keyg {
+		n.pendingProposals.keyg[i] = &keyGenerator{rand: rand.New(&verifC12KeySource{v: v})}
+	}
 	n.raftEvents = newRaftEventListener(cfg.ShardID, cfg.ReplicaID, false, newLeaderInfoQueue())
 	n.logReader = logdb.NewLogReader(cfg.ShardID, cfg.ReplicaID, nil)
 	n.p = raft.Launch(cfg, n.logReader, n.raftEvents, []raft.PeerAddress{
@@ -390,3 +406,119 @@ func (v *VerifC12) ProposeHeldThenClose(clientID, seriesID, key, timeout uint64)
 	sh.close()
 	return rs, err, enqueuedUnregistered
 }
+
+// ---- the real node.go functions around the tables ----
+
+type verifC12Pipeline struct{}
+
+func (verifC12Pipeline) setCloseReady(*node)    {}
+func (verifC12Pipeline) setStepReady(uint64)    {}
+func (verifC12Pipeline) setCommitReady(uint64)  {}
+func (verifC12Pipeline) setApplyReady(uint64)   {}
+func (verifC12Pipeline) setStreamReady(uint64)  {}
+func (verifC12Pipeline) setSaveReady(uint64)    {}
+func (verifC12Pipeline) setRecoverReady(uint64) {}
+
+// verifC12KeySource makes pendingProposal.nextKey return the key the harness chose.
+type verifC12KeySource struct{ v *VerifC12 }
+
+func (s *verifC12KeySource) Uint64() uint64 { return s.v.nextKey }
+func (s *verifC12KeySource) Int63() int64   { return int64(s.v.nextKey >> 1) }
+func (s *verifC12KeySource) Seed(int64)     {}
+
+// NodePropose is node.propose (Propose / SyncPropose below the NodeHost lookup).
+func (v *VerifC12) NodePropose(clientID, seriesID, respondedTo, key, timeout uint64, cmd []byte) (*RequestState, error) {
+	v.nextKey = key
+	s := &client.Session{ShardID: 1, ClientID: clientID, SeriesID: seriesID, RespondedTo: respondedTo}
+	return v.n.propose(s, cmd, timeout)
+}
+
+// NodeProposeSession is node.proposeSession: register / unregister a client session.
+func (v *VerifC12) NodeProposeSession(clientID uint64, register bool, key, timeout uint64) (*RequestState, error) {
+	v.nextKey = key
+	s := &client.Session{ShardID: 1, ClientID: clientID, SeriesID: client.SeriesIDForUnregister}
+	if register {
+		s.SeriesID = client.SeriesIDForRegister
+	}
+	return v.n.proposeSession(s, timeout)
+}
+func (v *VerifC12) NodeRead(timeout uint64) (*RequestState, error) { return v.n.read(timeout) }
+func (v *VerifC12) NodeRequestConfigChange(timeout uint64) (*RequestState, error) {
+	return v.n.requestAddNodeWithOrderID(2, "a2", 0, timeout)
+}
+func (v *VerifC12) NodeRequestSnapshot(timeout uint64) (*RequestState, error) {
+	return v.n.requestSnapshot(SnapshotOption{}, timeout)
+}
+func (v *VerifC12) NodeQueryRaftLog(first, last uint64) (*RequestState, error) {
+	return v.n.queryRaftLog(first, last, 1024)
+}
+
+// SetMaxInMemLogSize sets Config.MaxInMemLogSize of the node (node.payloadTooBig).
+func (v *VerifC12) SetMaxInMemLogSize(sz uint64) { v.n.config.MaxInMemLogSize = sz }
+
+// NodeClose is node.close().
+func (v *VerifC12) NodeClose() { v.n.close() }
+
+// NodeGc is node.gc().
+func (v *VerifC12) NodeGc() { v.n.gc() }
+
+// NodeHandleReadIndex is node.handleReadIndex(); it returns the ctx of the batch it added.
+func (v *VerifC12) NodeHandleReadIndex() (uint64, uint64, bool) {
+	v.pr.mu.Lock()
+	before := make(map[pb.SystemCtx]struct{}, len(v.pr.batches))
+	for c := range v.pr.batches {
+		before[c] = struct{}{}
+	}
+	v.pr.mu.Unlock()
+	if _, err := v.n.handleReadIndex(); err != nil {
+		panic(err)
+	}
+	v.pr.mu.Lock()
+	defer v.pr.mu.Unlock()
+	for c := range v.pr.batches {
+		if _, ok := before[c]; !ok {
+			return c.Low, c.High, true
+		}
+	}
+	return 0, 0, false
+}
+
+// NodeProcessReadyToRead is node.processReadyToRead(ud) of the step worker.
+func (v *VerifC12) NodeProcessReadyToRead(low, high, index, lastApplied uint64) {
+	v.n.processReadyToRead(pb.Update{LastApplied: lastApplied,
+		ReadyToReads: []pb.ReadyToRead{{Index: index, SystemCtx: pb.SystemCtx{Low: low, High: high}}}})
+}
+
+// NodeApplyUpdate is node.ApplyUpdate, what the apply path calls for every entry.
+func (v *VerifC12) NodeApplyUpdate(clientID, seriesID, key, index, value uint64, rejected, ignored, notifyRead bool) {
+	e := pb.Entry{Type: pb.ApplicationEntry, Index: index, Key: key, ClientID: clientID, SeriesID: seriesID}
+	v.n.ApplyUpdate(e, sm.Result{Value: value}, rejected, ignored, notifyRead)
+}
+
+// NodeDroppedProposal / NodeDroppedConfigChange / NodeDroppedReadIndex are
+// node.processDroppedEntries / node.processDroppedReadIndexes.
+func (v *VerifC12) NodeDroppedProposal(clientID, seriesID, key uint64) {
+	v.n.processDroppedEntries(pb.Update{DroppedEntries: []pb.Entry{
+		{Type: pb.ApplicationEntry, Key: key, ClientID: clientID, SeriesID: seriesID}}})
+}
+func (v *VerifC12) NodeDroppedConfigChange(key uint64) {
+	v.n.processDroppedEntries(pb.Update{DroppedEntries: []pb.Entry{{Type: pb.ConfigChangeEntry, Key: key}}})
+}
+func (v *VerifC12) NodeDroppedReadIndex(low, high uint64) {
+	v.n.processDroppedReadIndexes(pb.Update{DroppedReadIndexes: []pb.SystemCtx{{Low: low, High: high}}})
+}
+
+// NodeCommitted is node.notifyCommittedEntries() of the commit worker for one
+// committed entry (proposal or config change).
+func (v *VerifC12) NodeCommitted(configChange bool, clientID, seriesID, key uint64) {
+	e := pb.Entry{Type: pb.ApplicationEntry, Key: key, ClientID: clientID, SeriesID: seriesID}
+	if configChange {
+		e = pb.Entry{Type: pb.ConfigChangeEntry, Key: key}
+	}
+	v.n.toCommitQ.Add(rsm.Task{Entries: []pb.Entry{e}})
+	v.n.notifyCommittedEntries()
+	v.n.toApplyQ.GetAll()
+}
+
+// NodeIgnoredSnapshotRequest is node.reportIgnoredSnapshotRequest.
+func (v *VerifC12) NodeIgnoredSnapshotRequest(key uint64) { v.n.reportIgnoredSnapshotRequest(key) }
